@@ -193,10 +193,8 @@ func (d *Decoder) volumePath(volumeNumber uint64) string {
 	return base + fmt.Sprintf(".p%02d", volumeNumber)
 }
 
-// LoadParityData searches for parity volumes and loads them into
-// memory.
 // unusableVolumeError wraps the error for a parity volume file that is
-// present but damaged.
+// present but damaged, or that belongs to another set.
 type unusableVolumeError struct {
 	err error
 }
@@ -205,7 +203,17 @@ func (e unusableVolumeError) Error() string {
 	return e.err.Error()
 }
 
+// LoadParityData searches for parity volumes and loads them into
+// memory. A parity volume that belongs to another set is an error.
 func (d *Decoder) LoadParityData() error {
+	return d.loadParityData(false)
+}
+
+// loadParityData is LoadParityData, except that if skipForeignVolumes
+// is set, a stale or foreign parity volume (one with another set hash
+// or with a volume number that does not match its file name) is
+// counted as unusable, like a damaged one, instead of being an error.
+func (d *Decoder) loadParityData(skipForeignVolumes bool) error {
 	// TODO: Support searching for volume data without relying on
 	// filenames.
 
@@ -253,14 +261,19 @@ func (d *Decoder) LoadParityData() error {
 
 			byteCount := len(parityVolume.data)
 
+			foreignVolumeError := func(err error) error {
+				if skipForeignVolumes {
+					return unusableVolumeError{err}
+				}
+				return err
+			}
+
 			if parityVolume.header.SetHash != d.indexVolume.header.SetHash {
-				// TODO: Relax this check.
-				return volume{}, byteCount, errors.New("unexpected set hash for parity volume")
+				return volume{}, byteCount, foreignVolumeError(errors.New("unexpected set hash for parity volume"))
 			}
 
 			if parityVolume.header.VolumeNumber != uint64(i+1) {
-				// TODO: Relax this check.
-				return volume{}, byteCount, errors.New("unexpected volume number for parity volume")
+				return volume{}, byteCount, foreignVolumeError(errors.New("unexpected volume number for parity volume"))
 			}
 
 			if byteCount == 0 {
